@@ -1,12 +1,14 @@
 ------------------------------ MODULE ConvertMC ------------------------------
 (* The laws of C02 on the specification itself. *)
 EXTENDS ConvertCases
-CONSTANT Space   \* "nested", "sepkeys" or "table"
-VARIABLE r
-Init == CASE Space = "nested" -> r \in NestedRecs
-          [] Space = "sepkeys" -> r \in SepKeyRecs
-          [] Space = "table" -> r = <<>>
-Next == UNCHANGED r
+CONSTANTS Space,   \* "nested", "sepkeys" or "table"
+          Slices   \* the space is cut into this many slices, one initial state each (so that TLC's workers share it)
+VARIABLES r, p
+SX == INSTANCE SequencesExt
+TheSpace == CASE Space = "nested" -> NestedRecs [] Space = "sepkeys" -> SepKeyRecs [] Space = "table" -> {}
+SpaceSeq == SX!SetToSeq(TheSpace)
+Init == p \in 1..Slices /\ r = <<>>
+Next == r = <<>> /\ p' = p /\ r' \in {SpaceSeq[i] : i \in {k \in 1..Len(SpaceSeq) : k % Slices = p - 1}}
 
 One(rec) == <<rec>>
 JsonLike == {"json", "jsonl", "yaml"}
@@ -30,21 +32,32 @@ RecLaws(sep) ==
   \* flattening twice is flattening once; a flat record without the separator is left alone by both
   /\ Flatten(sep, f) = f
   /\ (IsFlat(r) /\ RecKeysFree(sep, r)) => (Flatten(sep, r) = r /\ Unflatten(sep, r) = r)
-  \* conversions: JSON -> tabular -> JSON is the identity; A -> B = A -> C -> B for every intermediate; A -> B -> A
-  /\ InLawDomain(sep, r) =>
-       \A j1 \in JsonLike, j2 \in JsonLike, t \in Tabular :
-          CanCarry(t, f) =>
-            /\ InDomain(<<j1, t, j2>>, sep, FALSE, One(r))
-            /\ ConvertPath(<<j1, t, j2>>, sep, FALSE, One(r)) = One(r)
-            /\ ConvertPath(<<j1, j2>>, sep, FALSE, One(r)) = One(r)
-            /\ ConvertPath(<<j1, t>>, sep, FALSE, One(r)) = ConvertPath(<<j1, j2, t>>, sep, FALSE, One(r))
-            /\ \A t2 \in Tabular : CanCarry(t2, f) =>
-                 /\ ConvertPath(<<j1, t>>, sep, FALSE, One(r)) = ConvertPath(<<j1, t2, t>>, sep, FALSE, One(r))
-                 /\ ConvertPath(<<j1, t2, t, j2>>, sep, FALSE, One(r)) = One(r)
-                 /\ ConvertPath(<<t, t2, t>>, sep, FALSE, One(f)) = One(f)
-                 /\ ConvertPath(<<t, j1, t>>, sep, FALSE, One(f)) = One(f)
-                 /\ ConvertPath(<<t, t2>>, sep, FALSE, One(f)) = ConvertPath(<<t, j1, t2>>, sep, FALSE, One(f))
+
+\* conversions: JSON -> tabular -> JSON is the identity; A -> B = A -> C -> B for every intermediate; A -> B -> A = id.
+\* (ConvertAB looks at a format only through Nestable, and Carries says which formats may take part.)
+PathLaws(sep) ==
+  LET f == Flatten(sep, r)
+      one == One(r)
+      onef == One(f)
+      CP(path, s) == ConvertPath(path, sep, FALSE, s)
+  IN InLawDomain(sep, r) =>
+       /\ \A j1 \in JsonLike, j2 \in JsonLike : CP(<<j1, j2>>, one) = one
+       /\ \A j1 \in JsonLike, t \in {tt \in Tabular : CanCarry(tt, f)} :
+            /\ CP(<<j1, t>>, one) = onef
+            /\ \A j2 \in JsonLike :
+                 /\ InDomain(<<j1, t, j2>>, sep, FALSE, one)
+                 /\ CP(<<j1, t, j2>>, one) = one
+                 /\ CP(<<j1, j2, t>>, one) = onef
+                 /\ CP(<<t, j1, j2>>, onef) = one
+            /\ \A t2 \in {tt \in Tabular : CanCarry(tt, f)} :
+                 /\ CP(<<j1, t2, t>>, one) = onef
+                 /\ CP(<<j1, t2, t, j1>>, one) = one
+                 /\ CP(<<t, t2, t>>, onef) = onef
+                 /\ CP(<<t, t2>>, onef) = onef
+                 /\ CP(<<t, j1, t2>>, onef) = onef
+                 /\ CP(<<t, j1, t>>, onef) = onef
 Laws == \A sep \in Seps : RecLaws(sep)
+AllPathLaws == \A sep \in Seps : PathLaws(sep)
 
 \* flatten is injective on the domain: counted (the image has as many elements as the domain)
 DomainOf(sep) == {rec \in NestedRecs : InLawDomain(sep, rec)}
